@@ -415,7 +415,7 @@ PATTERNS = ["lifo", "bottom", "middle", "fifo", "random", "regrow", "leave"]
 
 
 def gen(rng, tier):
-    n = 1 if tier == "quick" else 15
+    n = 3 if tier == "quick" else 40
     cases = []
     cases.append("")
     cases += f20_cases(rng)
